@@ -227,4 +227,9 @@ can therefore never hit a closed channel in it.  The code matches: the queue has
 the monitor announces its exit by closing `monDone`, once. -/
 theorem C08_callback_queue_is_never_closed : Facts.callbackQueueCloses = 0 ∧ Facts.monDoneCloses = 1 := ⟨rfl, rfl⟩
 
+/-- regenerated fact F4u (repaired defect P20): the model identifies a report's slot by its index; the code does it by
+comparing Source values, which is only total - and never a crash of the monitor - because Config lets a pointer stand in
+for every source of an uncomparable type before the source is stored and watched. -/
+theorem C08_slots_are_comparable : Facts.uncomparableSourcesWrapped = true := rfl
+
 end Dials.C08
